@@ -64,6 +64,10 @@ def prefixBits (pieces : List (List Nat)) : List Nat :=
   ((pieces.take (pieces.length - 1)).foldl (fun (acc : List Nat × Nat) p =>
       let t := acc.2 + 8 * p.length; (acc.1 ++ [t], t)) ([], 0)).1
 
+/-- the property's domain: at least one piece, every non-final piece a multiple of the block size -/
+def piecesOk (bb : Nat) (pieces : List (List Nat)) : Bool :=
+  !pieces.isEmpty && (pieces.take (pieces.length - 1)).all fun p => p.length % bb == 0
+
 def fmtSeq (r : List Nat × List Nat) : String := fmtBytes r.1 ++ ";" ++ fmtNatList r.2
 
 /-! ### BLAKE2 -/
@@ -174,7 +178,7 @@ def handle : Handler := fun op args =>
       let m := fmtE fmtSeq (do let c ← Blake.mk? n; blakeSeqModel c salt ps)
       let sp := match Spec.Blake.variant? n with
         | none => "ERR"
-        | some V => if ps.isEmpty then "ERR" else
+        | some V => if !piecesOk (V.block / 8) ps then "ERR" else
           fmtSeq (Spec.Blake.hash V ps.flatten (8 * ps.flatten.length) salt, prefixBits ps)
       pure (m, sp)
   | "blakeseq.trace", n :: pieces => do
@@ -182,19 +186,19 @@ def handle : Handler := fun op args =>
       let m := fmtE fmtNatList (do let c ← Blake.mk? n; blakeSeqTrace c ps)
       let sp := match Spec.Blake.variant? n with
         | none => "ERR"
-        | some V => if ps.isEmpty then "ERR" else fmtNatList (Spec.Blake.counters V 0 (8 * ps.flatten.length))
+        | some V => if !piecesOk (V.block / 8) ps then "ERR" else fmtNatList (Spec.Blake.counters V 0 (8 * ps.flatten.length))
       pure (m, sp)
   | "blake2seq", v :: pieces => do
       let (c, V) ← b2cfg? v
       let ps ← parseAll parseBytes? pieces
       let m := fmtE fmtSeq (b2SeqModel c ps)
-      let sp := if ps.isEmpty then "ERR" else fmtSeq (Spec.Blake2.hash V (specParams V {}) ps.flatten, prefixBits ps)
+      let sp := if !piecesOk V.bb ps then "ERR" else fmtSeq (Spec.Blake2.hash V (specParams V {}) ps.flatten, prefixBits ps)
       pure (m, sp)
   | "blake2seq.trace", v :: pieces => do
       let (c, V) ← b2cfg? v
       let ps ← parseAll parseBytes? pieces
       let m := fmtE fmtNatList (b2SeqTrace c ps)
-      let sp := if ps.isEmpty then "ERR" else
+      let sp := if !piecesOk V.bb ps then "ERR" else
         fmtNatList ((Spec.Blake2.counters V 0 ps.flatten.length).flatMap fun y => [y.1, if y.2 then 1 else 0])
       pure (m, sp)
   | _, _ => none
